@@ -9,12 +9,12 @@ H18 = 64800 * NPS
 
 META = {
     "property": "C05",
-    "proof_modules": ["PyodaProofs.C05"],
+    "proof_modules": ["PyodaProofs.C05", "PyodaProofs.C04Spec"],
     "drivers": ["drv_zone"],
     "theorems": [
         "Pyoda.C05.containsLocal_iff", "Pyoda.C05.mapLocal_sound", "Pyoda.C05.mapLocal_complete",
         "Pyoda.C05.mapLocal_count_le_two", "Pyoda.C05.mapLocal_sorted", "Pyoda.C05.mapLocal_gap",
-        "Pyoda.C05.instant_roundtrip", "Pyoda.C05.strict_spec", "Pyoda.C05.lenient_spec", "Pyoda.C05.startOfDay_spec_partial", "Pyoda.C05.toy_spec",
+        "Pyoda.C05.instant_roundtrip", "Pyoda.C05.strict_spec", "Pyoda.C05.lenient_spec", "Pyoda.C05.startOfDay_spec_partial", "Pyoda.C05.toy_spec", "Pyoda.C04.dataOK_gives_spec",
     ],
     "trusted_base": [
         "theorems are over an abstract zone `get` satisfying Partition, Bounded (|wall| <= 18 h) and MinLen (finite intervals >= 36 h); C04 establishes these for the model of the bundled zones (MinLen by evaluation on the current data: shortest interval reported in evidence)",
